@@ -52,10 +52,10 @@ def ev_simplify(S_raw, ctx_raw, via="list", with_ctx=True):
     if via == "list":
         out, exc = _ans(lambda: tl.simplify(ctx if with_ctx else None))
     else:
-        inv = sorted(R.rows_vars(Cx))
-        outv = sorted(R.rows_vars(S) - set(inv))
+        inv = sorted({str(v) for v in ctx.vars})                       # the interface is read off the terms themselves, not off their integer images
+        outv = sorted({str(v) for v in tl.vars} - set(inv))
         out, exc = _ans(lambda: PolyhedralIoContract(ctx, tl, [Var(v) for v in inv], [Var(v) for v in outv]).g)
-    ev = {"op": "simplify", "S": S, "ctx": Cx if (with_ctx or via != "list") else [], "R": [], "exc": exc, "ok": True,
+    ev = {"op": "simplify", "S": S, "ctx": Cx if (with_ctx or via != "list") else [], "R": [], "exc": exc, "ok": True, "eqok": False,
           "groups": ["simplify"], "via": via}
     ctxr = ev["ctx"]
     names = _names(S, ctxr)
@@ -64,6 +64,7 @@ def ev_simplify(S_raw, ctx_raw, via="list", with_ctx=True):
         Rr = C.prows(out)
         ev["R"] = Rr
         ev["ok"] = all(r["_ok"] for r in Rr)
+        ev["eqok"] = all(r.get("_eqok", False) for r in Rr + S)
         names = _names(S, ctxr, Rr)
         if ev["ok"]:
             hints["equiv"] = [H.hint_plain(ctxr + Rr, names, s) for s in S]
